@@ -42,7 +42,7 @@ _RE_DRIFT = re.compile(r'<<\s*"IMPL-DRIFT",\s*(\d+),.*?>>', re.S)
 _RE_REJECT = re.compile(r'<<\s*"C01-REJECT".*?>>', re.S)
 
 
-def validate(sc, files, parallel=16, timeout=1800):
+def validate(sc, files, parallel=12, timeout=1800):
     """V.validate_traces plus the IMPL-DRIFT lines of every part (drift level, never a verdict)."""
     parts = []
     for f in files:
